@@ -1,6 +1,7 @@
 #!/usr/bin/env python
 """Module containing the simulation runner."""
 
+import copy
 import itertools
 import os
 import sys
@@ -813,7 +814,11 @@ class SimulationResultsSaver:
         # With this, the simulation parameters will be available for
         # someone that has the SimulationResults object (loaded from a
         # file, for instance).
-        self.results.set_parameters(params)
+        #
+        # A copy is stored: the results must keep describing the parameters
+        # they were simulated with even if the parameters of the runner are
+        # changed later (for another simulation).
+        self.results.set_parameters(copy.deepcopy(params))
 
     def cleanup(self, runned_reps: Union[List[int], int],
                 elapsed_time: str) -> None:
